@@ -201,6 +201,26 @@ def _decide(mod, name, fn, ops, ints, tss):
                 if acc % P:
                     cf[S] = acc % P
             coef[og] = cf
+        # is the helper a multilinear function at all?  Compare it with the interpolant at generic points (small integers,
+        # random canonical and non-canonical words): a squaring, an S-box, a predicate ... disagrees at once and is left alone
+        # (ANALYSIS-INCOMPLETE as before); a helper that agrees at all of them is meant to be that polynomial, and a
+        # representation at which it is not (kernel mode below) is a defect of the helper
+        import random
+        rnd = random.Random(12345)
+        pool = [2, 3, 5, 7, 1 << 32, (1 << 32) - 1, P - 1, P - 2, 1 << 63, (1 << 63) + 12345]
+        generic = [tuple(pool[(i + 3 * g) % len(pool)] for g in range(n)) for i in range(len(pool))]
+        generic += [tuple(rnd.randrange(P) for _ in range(n)) for _ in range(24)]
+        for point in generic:
+            o = _evaluate(mod, name, fn, ops, ints, point)
+            for og in outs:
+                want = 0
+                for S, c in coef[og].items():
+                    t = c
+                    for g in S:
+                        t = t * point[g] % P
+                    want = (want + t) % P
+                if o.get(og) is None or o[og] % P != want:
+                    return ('unknown', None, None, 'not a multilinear function of its operands (differs from the 0/1 interpolant at a generic point)')
     except (Incomplete, IRError, Sink, KeyError) as e:
         return ('unknown', None, None, str(e))
     nargs = len(fn.params)
@@ -228,8 +248,11 @@ def _decide(mod, name, fn, ops, ints, tss):
     widths = {i: t[1] for i, (t, pn) in enumerate(fn.params) if t[0] == 'i'}
     va = {i: const(v & ((1 << widths[i]) - 1), widths[i]) for i, v in ints.items()}
     try:
-        r = kprove.prove_cells(mod, name, nargs, in_cells, out_cells, [mkspec(og) for og in outs], alias=alias or None,
-                               value_args=va, budget=20000)
+        with kprove.time_limit(120):
+            r = kprove.prove_cells(mod, name, nargs, in_cells, out_cells, [mkspec(og) for og in outs], alias=alias or None,
+                                   value_args=va, budget=20000)
+    except kprove.TimeBudget as e:
+        return ('unknown', None, None, 'kernel mode: %s' % e)
     except Exception as e:
         return ('unknown', None, None, 'kernel mode: %s: %s' % (type(e).__name__, str(e)[:160]))
     if r.undecided:
